@@ -27,6 +27,8 @@ class RefSim:
         self.Vfn = self.R.fast(self.R.V)
         self.ns = len(self.R.states)
         self.ne = ne
+        # which events have a rate that depends on time explicitly (in the model's event order)
+        self.tdep = [bool(self.R.a[i].has(self.R.t)) for i in self.order] if ne else []
         self.hybrid = bool(d.get("odes"))
         self.purefn = self.R.fast(self.R.pure) if self.hybrid else None
         lims = d.get("limits") or [None] * self.ns
@@ -129,14 +131,17 @@ def ref_path(rs, x0, t0, T, exact, log, pre_tau=None, partial=False):
             if len(blk) < rs.ne or any(b[0] != "pois" for b in blk):
                 raise Mismatch("tau-draw-block", want="%d poisson draws" % rs.ne,
                                got=[b[0] for b in blk], state=x, t=t)
-            taus = [b[1] / r[e] for e, b in enumerate(blk) if r[e] > 0]
-            tau = taus[0]
+            # the step size is read off the requested means; an event whose rate does not depend on time is preferred
+            # (dividing by a time-dependent rate feeds the rounding of the accumulated time back into the step size)
+            cand = [e for e in range(rs.ne) if r[e] > 0]
+            pref = [e for e in cand if not rs.tdep[e]] or cand
+            tau = blk[pref[0]][1] / r[pref[0]]
             if pre_tau is not None and close(tau, pre_tau, 1e-12):
                 tau = pre_tau          # the fixed step itself, not the value inferred from lam/r
             if not (tau > 0 and math.isfinite(tau)):
                 raise Mismatch("tau-not-positive", tau=tau, state=x, t=t)
             for e, b in enumerate(blk):
-                if not close(b[1], tau * r[e]):
+                if not close(b[1], tau * r[e], 1e-6 if rs.tdep[e] else REL):
                     raise Mismatch("wrong-poisson-mean", event=e, want=tau * r[e], got=b[1], state=x, t=t)
             n = [int(b[2]) for b in blk]
             pos += rs.ne
